@@ -17,7 +17,12 @@ var icCache sync.Map // *ssa.Function -> intercept (or nil marker)
 
 type icNone struct{}
 
+func (m *Machine) realBig() bool { return m.cfg.Params["real_big"] == 1 }
+
 func (m *Machine) lookupIntercept(fn *ssa.Function) intercept {
+	if m.realBig() && fn.Pkg != nil && fn.Pkg.Pkg.Path() == "math/big" {
+		return nil // real mode: the pure-Go math/big code is interpreted
+	}
 	if v, ok := icCache.Load(fn); ok {
 		if ic, ok := v.(intercept); ok {
 			return ic
@@ -334,6 +339,26 @@ func init() {
 		}
 		return StrVal{sym: bs}
 	})
+	// GuardedBy(map, &mutex): from now on every access to the map must happen
+	// while the mutex is held by the accessing goroutine (C10 monitor).
+	regV(apiPkg+".GuardedBy", func(m *Machine, g *Goroutine, a []Value) Value {
+		mv, ok := a[0].(IfaceVal).v.(MapVal)
+		if !ok || mv.m == nil {
+			panic(abortf("GuardedBy: first argument must be a non-nil map"))
+		}
+		p := a[1].(IfaceVal).v.(PtrVal)
+		mu, ok := getPath(p.obj.v, p.path).(*MutexObj)
+		if !ok {
+			panic(abortf("GuardedBy: second argument must point to a sync.Mutex/RWMutex"))
+		}
+		if m.guards == nil {
+			m.guards = map[*MapObj]*MutexObj{}
+		}
+		m.guards[mv.m] = mu
+		return nil
+	})
+	regV(apiPkg+".Unguard", func(m *Machine, g *Goroutine, a []Value) Value { m.guards = nil; return nil })
+	regV(apiPkg+".LocksHeld", func(m *Machine, g *Goroutine, a []Value) Value { return mkInt(int64(len(g.locks))) })
 	regV(apiPkg+".IsSymbolic", func(m *Machine, g *Goroutine, a []Value) Value { return tTrue })
 
 	// ---------- math/big ----------
